@@ -10,6 +10,16 @@ thread_local! {
     static BYTES: Cell<usize> = const { Cell::new(0) };
     static LARGEST: Cell<usize> = const { Cell::new(0) };
     static CALLS: Cell<usize> = const { Cell::new(0) };
+    /// while measuring: requests beyond this running total are refused (null), which makes the requesting code
+    /// abort via handle_alloc_error - a runaway decode ends as SIGABRT (reported by the crash handler with the
+    /// pending case) instead of taking the machine down
+    static LIMIT: Cell<usize> = const { Cell::new(usize::MAX) };
+}
+
+#[inline]
+fn over_limit(sz: usize) -> bool {
+    ON.try_with(|on| on.get()).unwrap_or(false)
+        && BYTES.try_with(|b| b.get().saturating_add(sz)).unwrap_or(0) > LIMIT.try_with(|l| l.get()).unwrap_or(usize::MAX)
 }
 
 #[inline]
@@ -29,6 +39,9 @@ fn note(sz: usize) {
 
 unsafe impl GlobalAlloc for Counting {
     unsafe fn alloc(&self, l: Layout) -> *mut u8 {
+        if over_limit(l.size()) {
+            return std::ptr::null_mut();
+        }
         note(l.size());
         System.alloc(l)
     }
@@ -36,10 +49,16 @@ unsafe impl GlobalAlloc for Counting {
         System.dealloc(p, l)
     }
     unsafe fn alloc_zeroed(&self, l: Layout) -> *mut u8 {
+        if over_limit(l.size()) {
+            return std::ptr::null_mut();
+        }
         note(l.size());
         System.alloc_zeroed(l)
     }
     unsafe fn realloc(&self, p: *mut u8, l: Layout, new: usize) -> *mut u8 {
+        if over_limit(new) {
+            return std::ptr::null_mut();
+        }
         note(new);
         System.realloc(p, l, new)
     }
@@ -66,4 +85,12 @@ pub fn measure<R>(f: impl FnOnce() -> R) -> (R, Measure) {
         calls: CALLS.with(|b| b.get()),
     };
     (r, m)
+}
+
+/// `measure` with a ceiling on the running total of requested bytes (see `LIMIT`).
+pub fn measure_limited<R>(limit: usize, f: impl FnOnce() -> R) -> (R, Measure) {
+    LIMIT.with(|l| l.set(limit));
+    let r = measure(f);
+    LIMIT.with(|l| l.set(usize::MAX));
+    r
 }
